@@ -26,4 +26,7 @@ var props = map[string]propCfg{
 	"C01": one(part{Pkg: "./props/static", Test: "TestC01",
 		Quick:    tierCfg{Cases: 96, Shards: 6, Timeout: 10 * min, ShrinkTime: 30 * sec},
 		Thorough: tierCfg{Cases: 1500, Shards: 14, Timeout: 60 * min, ShrinkTime: 5 * min}}),
+	"C04": one(part{Pkg: "./props/static", Test: "TestC04",
+		Quick:    tierCfg{Cases: 96, Shards: 6, Timeout: 10 * min, ShrinkTime: 30 * sec},
+		Thorough: tierCfg{Cases: 1500, Shards: 14, Timeout: 60 * min, ShrinkTime: 5 * min}}),
 }
